@@ -317,11 +317,11 @@ def streams(ck: Check) -> None:
 
     # (2) exhaustive small scope: every feasible packing of tiny instances
     tiny = tiny_instances(3, 3)
-    tiny = rng.sample(tiny, 10 if q else 150)
+    tiny = rng.sample(tiny, 10 if q else 80)
     for W, H, items in tiny:
         impl = Impl(W, H, items)
         gid[0] += 1
-        packs = all_feasible_packings(W, H, items, 250 if q else 4000, rng)
+        packs = all_feasible_packings(W, H, items, 250 if q else 3000, rng)
         ck.count("exhaustive_instances")
         for rows, k in packs:
             if rng.random() < 0.5:
